@@ -1,6 +1,7 @@
 package checks
 
 import (
+	"context"
 	"errors"
 	"fmt"
 	"strconv"
@@ -385,6 +386,24 @@ func evalC03(c *Ctx, cs *Case) {
 				viol("WalkFromRoot", "fromroot.differs-from-markdown", "walk", map[string]any{"order": order})
 			}
 		}
+			// massive mode with a meaningless encode option: the walk must still see the full rows
+		if spellable && order == orders[0] {
+			mrec := NewRowRec()
+			mo := Guard(func() error {
+				return gtree.WalkFromRoot(g, mrec.Callback, append(BranchOptions(3), gtree.WithMassive(context.Background()), gtree.WithEncodeJSON())...)
+			})
+			c.Eval(gen.HashString(fkey+"\x00walkmassive"), nontrivial)
+			if mo.Panic != nil || mo.Err != nil || !RowsEqual(mrec.Rows, cur.rows) {
+				viol("WalkFromRoot[massive+stray json]", "fromroot.massive-differs", "walk", map[string]any{"err": errStr(mo.Err)})
+			}
+			mw := mon.NewRecWriter()
+			mo2 := Guard(func() error {
+				return gtree.OutputFromRoot(mw, g, append(BranchOptions(3), gtree.WithMassive(context.Background()))...)
+			})
+			if mo2.Panic != nil || mo2.Err != nil || string(mw.Bytes()) != cur.text[1] {
+				viol("OutputFromRoot[massive]", "fromroot.massive-differs", "text", map[string]any{"err": errStr(mo2.Err), "massive": trunc(string(mw.Bytes()), 400), "simple": trunc(cur.text[1], 400)})
+			}
+		}
 		// all Add orders give the same tree
 		if first == nil {
 			cp := cur
@@ -439,7 +458,16 @@ func c03FS(c *Ctx, cs *Case, f model.Forest, root *model.Node, doc, fkey string,
 		}
 		var o Outcome
 		if fam == 0 {
-			o = mkdirCall(mkdirRoutes[1], "", root, fsOpts(j.Target, exts, ei != 0, false, false, false))
+			// the tree has been used before (output, walk, iterator) when it is handed to Mkdir
+			g := BuildRoot(root)
+			_ = Guard(func() error { return gtree.OutputFromRoot(mon.NewRecWriter(), g) })
+			_ = Guard(func() error { return gtree.WalkFromRoot(g, func(*gtree.WalkerNode) error { return nil }) })
+			_ = Guard(func() error {
+				for range gtree.WalkIterFromRoot(g) {
+				}
+				return nil
+			})
+			o = Guard(func() error { return gtree.MkdirFromRoot(g, fsOpts(j.Target, exts, ei != 0, false, false, false)...) })
 		} else {
 			o = mkdirCall(mkdirRoutes[0], doc, nil, fsOpts(j.Target, exts, ei != 0, false, false, false))
 		}
